@@ -98,18 +98,37 @@ fn unesc(tok: &str) -> String {
     String::from_utf8_lossy(&out).to_string()
 }
 
-fn esc_path(p: &str) -> String {
+/// Paths are printed with whitespace, control bytes, '%' and every byte >= 0x7f
+/// percent-escaped: the output is pure ASCII whatever the file names are.
+fn esc_bytes(p: &[u8]) -> String {
     let mut o = String::new();
-    for b in p.bytes() {
-        if b <= 0x20 || b == b'%' || b == 0x7f { o.push_str(&format!("%{:02x}", b)); } else { o.push(b as char); }
+    for &b in p {
+        if b <= 0x20 || b == b'%' || b >= 0x7f { o.push_str(&format!("%{:02x}", b)); } else { o.push(b as char); }
     }
-    // bytes >= 0x80 were pushed as Latin-1 chars above; redo properly for UTF-8
-    let mut v = Vec::new();
-    for b in p.bytes() {
-        if b <= 0x20 || b == b'%' || b == 0x7f { v.extend_from_slice(format!("%{:02x}", b).as_bytes()); } else { v.push(b); }
+    o
+}
+fn esc_path(p: &str) -> String {
+    esc_bytes(p.as_bytes())
+}
+
+/// Path tokens of setup lines: `%XX` is a raw byte (file names need not be UTF-8).
+fn unesc_path(tok: &str) -> PathBuf {
+    use std::os::unix::ffi::OsStringExt;
+    let b = tok.as_bytes();
+    let mut out = Vec::new();
+    let mut i = 0;
+    while i < b.len() {
+        if b[i] == b'%' && i + 2 < b.len() + 1 {
+            if let Ok(v) = u8::from_str_radix(&tok[i + 1..i + 3], 16) {
+                out.push(v);
+                i += 3;
+                continue;
+            }
+        }
+        out.push(b[i]);
+        i += 1;
     }
-    let _ = o;
-    String::from_utf8_lossy(&v).to_string()
+    PathBuf::from(std::ffi::OsString::from_vec(out))
 }
 
 fn show(content: &[u8]) -> String {
@@ -197,7 +216,7 @@ fn snapshot(out: &mut impl Write, root: &Path) {
                 Ok(m) => m,
                 Err(_) => continue,
             };
-            let rel = esc_path(&p.strip_prefix(root).unwrap().to_string_lossy());
+            let rel = { use std::os::unix::ffi::OsStrExt; esc_bytes(p.strip_prefix(root).unwrap().as_os_str().as_bytes()) };
             if md.is_dir() {
                 writeln!(out, "F {} d {:o} {} - {} {} -", rel, md.permissions().mode() & 0o7777, md.nlink(),
                          md.mtime() as i128 * 1_000_000_000 + md.mtime_nsec() as i128,
@@ -205,7 +224,7 @@ fn snapshot(out: &mut impl Write, root: &Path) {
                 walk(out, root, &p);
             } else {
                 let content = {
-                    let pc = format!("{}\0", p.to_string_lossy());
+                    let pc = { use std::os::unix::ffi::OsStrExt; let mut v = p.as_os_str().as_bytes().to_vec(); v.push(0); v };
                     let fd = unsafe { libc::open(pc.as_ptr() as *const _, libc::O_RDONLY | libc::O_NOATIME | libc::O_CLOEXEC) };
                     let mut data = Vec::new();
                     if fd >= 0 {
@@ -379,12 +398,12 @@ pub fn run() {
             }
             "mkdir" => {
                 let _g = Paused::new();
-                std::fs::create_dir_all(cfg.root.join(f[1])).unwrap();
+                std::fs::create_dir_all(cfg.root.join(unesc_path(f[1]))).unwrap();
             }
             "mkdirt" => {
                 // directory with explicit modification / access time (after its content is planted)
                 let _g = Paused::new();
-                let p = cfg.root.join(f[1]);
+                let p = cfg.root.join(unesc_path(f[1]));
                 std::fs::create_dir_all(&p).unwrap();
                 let m: i128 = f[2].parse().unwrap();
                 let ft = filetime::FileTime::from_unix_time((m / 1_000_000_000) as i64, (m % 1_000_000_000) as u32);
@@ -392,7 +411,7 @@ pub fn run() {
             }
             "plant" => {
                 let _g = Paused::new();
-                let p = cfg.root.join(f[1]);
+                let p = cfg.root.join(unesc_path(f[1]));
                 if let Some(par) = p.parent() {
                     std::fs::create_dir_all(par).unwrap();
                 }
@@ -422,8 +441,8 @@ pub fn run() {
             }
             "hardlink" => {
                 let _g = Paused::new();
-                let a = cfg.root.join(f[1]);
-                let b = cfg.root.join(f[2]);
+                let a = cfg.root.join(unesc_path(f[1]));
+                let b = cfg.root.join(unesc_path(f[2]));
                 if let Some(par) = b.parent() { let _ = std::fs::create_dir_all(par); }
                 let _ = std::fs::hard_link(&a, &b);
             }
